@@ -45,14 +45,17 @@ def run_program(name: str, main_rs: str, args: List[str] = (), features: Tuple[s
     e = C.cargo_env({'CARGO_TARGET_DIR': tgt})
     if env:
         e.update(env)
-    if miri:
-        cmd = ['cargo', '+' + C.NIGHTLY, 'miri', 'run', '--offline', '-q']
-    else:
-        cmd = ['cargo', 'run', '--offline', '-q']
-    if release:
-        cmd.append('--release')
-    cmd += ['--'] + list(args)
     t0 = time.time()
-    p = subprocess.run(cmd, cwd=d, env=e, stdout=subprocess.PIPE, stderr=subprocess.PIPE, text=True, timeout=timeout)
+    if miri:
+        cmd = ['cargo', '+' + C.NIGHTLY, 'miri', 'run', '--offline', '-q'] + (['--release'] if release else []) + ['--'] + list(args)
+        p = subprocess.run(cmd, cwd=d, env=e, stdout=subprocess.PIPE, stderr=subprocess.PIPE, text=True, timeout=timeout)
+        if 'error[E' in (p.stderr or '') or 'could not compile' in (p.stderr or ''):
+            raise C.BuildError('replay program %s does not compile under miri:\n%s' % (name, p.stderr[-3000:]))
+    else:
+        b = subprocess.run(['cargo', 'build', '--offline', '-q'] + (['--release'] if release else []), cwd=d, env=e, stdout=subprocess.PIPE, stderr=subprocess.PIPE, text=True, timeout=timeout)
+        if b.returncode != 0:
+            raise C.BuildError('replay program %s does not compile:\n%s' % (name, b.stderr[-3000:]))
+        exe = os.path.join(tgt, 'release' if release else 'debug', 'replay_%s' % name)
+        p = subprocess.run([exe] + list(args), cwd=d, env=e, stdout=subprocess.PIPE, stderr=subprocess.PIPE, text=True, timeout=timeout)
     C.log('native %s (%s) rc=%s %.1fs' % (name, 'miri' if miri else ('release' if release else 'dev'), p.returncode, time.time() - t0))
     return p
